@@ -34,7 +34,7 @@ use std::process::{Command, Stdio};
 use vharness::*;
 
 const SYL_KEYS: [&str; 10] = ["hk4", "g4", "su3", "cl3", "ji3", "vup ", "dj4", "up ", "5j/ ", "2k7"];
-const ALL_HANDLERS: usize = 19 + 3 + 7 + 5 + 11 + 5; // named, Default/Numlock/CtrlNum, cand_*, buffer calls, setters, config_set_int/set_KBType/set_selKey/userphrase_add/remove
+const ALL_HANDLERS: usize = 19 + 3 + 7 + 5 + 11 + 5 + 3; // … + userphrase_lookup, userphrase_enumerate, config_set_str // named, Default/Numlock/CtrlNum, cand_*, buffer calls, setters, config_set_int/set_KBType/set_selKey/userphrase_add/remove
 
 struct Stats(BTreeMap<String, u64>);
 impl Stats {
@@ -58,12 +58,12 @@ fn gen_key(rng: &mut Rng) -> i32 {
     }
 }
 
-fn gen_ops(rng: &mut Rng, selecting: bool, selkeys: &[i32]) -> Vec<Op> {
+fn gen_ops(rng: &mut Rng, selecting: bool, selkeys: &[i32], user: &[(String, String)]) -> Vec<Op> {
     let w: Vec<u32> = if selecting {
         //   syl nav del open page choose close misc cfg user key
-        vec![2, 5, 2, 1, 12, 12, 3, 2, 3, 1, 3]
+        vec![2, 5, 2, 1, 12, 12, 3, 2, 3, 2, 3]
     } else {
-        vec![30, 12, 7, 10, 1, 1, 1, 7, 5, 2, 8]
+        vec![30, 12, 7, 10, 1, 1, 1, 7, 5, 5, 8]
     };
     match rng.weighted(&w) {
         0 => {
@@ -113,10 +113,43 @@ fn gen_ops(rng: &mut Rng, selecting: bool, selkeys: &[i32]) -> Vec<Op> {
             }
             12 => Op::SetOpt(0, *rng.pick(&[0, 1, 2, 3])),
             13 => Op::SetOpt(1, rng.below(2) as i32),
-            14 => Op::SetKb(*rng.pick(&[0, 0, 1, 2, 3, 4, 5, 6, 7, 8, 9, 10, 11, 13, 14, 15, 16, 17, -1])),
-            _ => Op::SetSelKeys(rng.weighted(&[3, 3, 3, 2]) as u8),
+            14 => {
+                if rng.chance(1, 3) {
+                    Op::SetStr(0, rng.pick(&KB_NAMES).0.to_string())
+                } else {
+                    Op::SetKb(*rng.pick(&[0, 0, 1, 2, 3, 4, 5, 6, 7, 8, 9, 10, 11, 13, 14, 15, 16, 17, -1, 255, 256, 257, -255]))
+                }
+            }
+            _ => match rng.weighted(&[6, 2, 3, 1]) {
+                0 => Op::SetSelKeys(rng.weighted(&[3, 3, 3, 2]) as u8),
+                1 => Op::SetSelKeysLen(1 + rng.below(3) as u8, *rng.pick(&[0, 5, 9, 11, -1, 10])),
+                2 => Op::SetStr(1, rng.pick(&SELKEY_STRS).to_string()),
+                _ => Op::SetStr(2, "x".into()),
+            },
         }],
-        9 => vec![if rng.chance(2, 3) { Op::UserAdd(rng.below(5) as u8) } else { Op::UserRemove(rng.below(5) as u8) }],
+        // half of the time, when the user dictionary has entries: a call about one of them (remove it, look it up with
+        // its phrase / with NULL / with another phrase, add it again, add another phrase under its syllables)
+        9 if !user.is_empty() && rng.chance(1, 2) => {
+            let (p, b) = rng.pick(user).clone();
+            let some = |s: &str| Some(s.as_bytes().to_vec());
+            vec![match rng.below(8) {
+                0 | 1 => Op::User(1, some(&p), some(&b)),
+                2 | 3 => Op::User(2, some(&p), some(&b)),
+                4 => Op::User(2, None, some(&b)),
+                5 => Op::User(2, gen_arg(rng, &PHRASE_POOL), some(&b)),
+                6 => Op::User(0, some(&p), some(&format!(" {}\t", b))),
+                _ => Op::User(0, gen_arg(rng, &PHRASE_POOL), some(&b)),
+            }]
+        }
+        9 => vec![match rng.weighted(&[4, 2, 5, 3, 3, 2]) {
+            0 => Op::UserAdd(rng.below(5) as u8),
+            1 => Op::UserRemove(rng.below(5) as u8),
+            // arbitrary arguments: mismatched lengths, unparsable / empty / NULL / non-UTF-8 strings, phrases already there
+            2 => Op::User(0, gen_arg(rng, &PHRASE_POOL), gen_arg(rng, &BOPO_POOL)),
+            3 => Op::User(1, gen_arg(rng, &PHRASE_POOL), gen_arg(rng, &BOPO_POOL)),
+            4 => Op::User(2, gen_arg(rng, &PHRASE_POOL), gen_arg(rng, &BOPO_POOL)),
+            _ => Op::UserEnum,
+        }],
         _ => vec![if rng.chance(1, 12) { Op::Reset } else { Op::Default(gen_key(rng)) }],
     }
 }
@@ -205,7 +238,7 @@ fn trace(out: &mut Out, ctl: &mut Ctl, seed: u64, n_calls: usize, st: &mut Stats
     while ok && calls < n_calls {
         let ops = match pending.pop() {
             Some(o) => vec![o],
-            None => gen_ops(&mut rng, pre.selecting(), &pre.selkeys),
+            None => gen_ops(&mut rng, pre.selecting(), &pre.selkeys, &pre.user),
         };
         for op in ops {
             calls += 1;
@@ -217,8 +250,21 @@ fn trace(out: &mut Out, ctl: &mut Ctl, seed: u64, n_calls: usize, st: &mut Stats
             }
             let facts = glue_facts(&tw);
             let kb_pre = kb_variant(&tw);
+            // user-phrase calls (work package capiuser): the enumeration of the REAL context before and after the call
+            let ucall = user_call(&op);
+            let is_user = ucall.is_some() || matches!(op, Op::UserEnum);
+            let e0 = if is_user { Some(unsafe { c_user_entries(ctx) }) } else { None };
+            let selkeys_pre = pre.selkeys.clone();
             let rc = unsafe { apply_c(ctx, &op) };
             let m = tw.apply(&op);
+            let mut user_verdicts: Vec<String> = vec![];
+            if let Some(e0) = e0 {
+                let e1 = unsafe { c_user_entries(ctx) };
+                match (e0, e1) {
+                    (Ok(e0), Ok(e1)) => user_step(out, st, ctx, &mut tw, &op, &ucall, rc, &e0, &e1, &mut user_verdicts),
+                    (Err(e), _) | (_, Err(e)) => user_verdicts.push(format!("enumeration protocol: {}", e)),
+                }
+            }
             // transcript record of the call glue (Driver/CApiOps.lean recomputes the right-hand side from the Lean model
             // of capi/src/io.rs): what the twin fed to its Editor, and the value the REAL C function returned
             if let (Some((name, arg)), Some(call)) = (op.record_name(), m.call.text()) {
@@ -285,6 +331,47 @@ fn trace(out: &mut Out, ctl: &mut Ctl, seed: u64, n_calls: usize, st: &mut Stats
             // CAPI_PROPS_STATEMENTS_ONLY=1 (mutation testing of the statement oracles): the glue comparison is switched off
             if statements_only {
                 verdicts.clear();
+            }
+            // records of the context-writing configuration calls (Driver/CApiUser.lean recomputes them from Model/CApiUser.lean)
+            let keys_tok = |k: &[i32]| k.iter().map(|x| x.to_string()).collect::<Vec<_>>().join(",");
+            match &op {
+                Op::SetKb(n) => {
+                    out.rec(&format!("capiuser kbtype {} => {} {} {}", n, rc, post.modes[2], kb_variant(&tw)));
+                    st.add("user_records_set_KBType", 1);
+                }
+                Op::SetStr(i, v) => {
+                    out.rec(&format!("capiuser setstr {} {} {} {} => {} {} {}", hx(STR_NAMES[*i as usize]), hx(v), keys_tok(&selkeys_pre), kb_pre, rc, keys_tok(&post.selkeys), kb_variant(&tw)));
+                    st.add("user_records_config_set_str", 1);
+                }
+                Op::SetSelKeys(i) => {
+                    out.rec(&format!("capiuser selkey {} {} 10 => {}", keys_tok(&selkeys_pre), keys_tok(&SEL_KEY_SETS[*i as usize]), keys_tok(&post.selkeys)));
+                    st.add("user_records_set_selKey", 1);
+                }
+                Op::SetSelKeysLen(i, len) => {
+                    let n = (*len).clamp(0, 16) as usize;
+                    let mut ks = SEL_KEY_SETS[*i as usize].to_vec();
+                    ks.resize(16, 33);
+                    out.rec(&format!("capiuser selkey {} {} {} => {}", keys_tok(&selkeys_pre), if n == 0 { "-".to_string() } else { keys_tok(&ks[..n]) }, len, keys_tok(&post.selkeys)));
+                    st.add("user_records_set_selKey", 1);
+                    if *len != 10 {
+                        st.add("user_records_set_selKey_len_not_10", 1);
+                        if post.selkeys != selkeys_pre {
+                            user_verdicts.push(format!("C16 chewing_set_selKey with len {} (not 10) changed the selection keys: {:?} -> {:?}", len, selkeys_pre, post.selkeys));
+                        }
+                    }
+                }
+                _ => {}
+            }
+            for v in user_verdicts {
+                // the map behaviour of the user dictionary seen through the C calls: C09 (and C08: the learning entry point)
+                if let Some(rest) = v.strip_prefix("C16 ") {
+                    // the configuration (C16) and what the selection-key remap of chewing_handle_Default works with (C06)
+                    verdicts.push(("C16", rest.to_string()));
+                    verdicts.push(("C06", rest.to_string()));
+                } else {
+                    verdicts.push(("C09", v.clone()));
+                    verdicts.push(("C08", v));
+                }
             }
             // 2. statements (only on a context whose glue agrees: one defect, one verdict)
             if verdicts.is_empty() {
@@ -377,6 +464,135 @@ fn trace(out: &mut Out, ctl: &mut Ctl, seed: u64, n_calls: usize, st: &mut Stats
     }
     unsafe { chewing_delete(ctx) };
     ok
+}
+
+/// one user-phrase call: transcript record (`capiuser add|remove|lookup|enum …`, recomputed by Driver/CApiUser.lean from
+/// Model/CApiUser.lean) and the STATEMENTS evaluated on the real C context: `e0` / `e1` = what the real context enumerates
+/// before / after the call, `rc` = what the real call returned
+#[allow(clippy::too_many_arguments)]
+fn user_step(out: &mut Out, st: &mut Stats, ctx: Ctx, tw: &mut Twin, op: &Op, ucall: &Option<(u8, Arg, Arg)>, rc: i32, e0: &[(String, String)], e1: &[(String, String)], v: &mut Vec<String>) {
+    use chewing_capi::userphrase::chewing_userphrase_lookup;
+    use std::collections::BTreeSet;
+    let set = |e: &[(String, String)]| e.iter().cloned().collect::<BTreeSet<_>>();
+    let (s0, s1) = (set(e0), set(e1));
+    if s0.len() != e0.len() || s1.len() != e1.len() {
+        v.push(format!("the enumeration hands out an entry twice: {:?}", if s0.len() != e0.len() { e0 } else { e1 }));
+    }
+    let Some((kind, p, b)) = ucall else {
+        // chewing_userphrase_enumerate: exactly the user dictionary's entries() (the twin's, driven with the same calls)
+        let t = set(&twin_user_entries(tw));
+        out.rec(&format!("capiuser enum {} => {} {}", twin_user_codes(tw), rc, entries_token(e1)));
+        st.add("user_records_enumerate", 1);
+        st.max("longest_user_enumeration", e1.len() as u64);
+        if t != s1 {
+            v.push(format!("the enumeration is not the user dictionary's entries(): C hands out {:?}, entries() of the twin {:?}", s1, t));
+        }
+        if s0 != s1 || rc != 0 {
+            v.push(format!("chewing_userphrase_enumerate is not pure: rc {}, {:?} -> {:?}", rc, s0, s1));
+        }
+        return;
+    };
+    let name = ["add", "remove", "lookup"][*kind as usize];
+    out.rec(&format!("capiuser {} {} {} {} => {} {}", name, entries_token(e0), arg_token(p), arg_token(b), rc, entries_token(e1)));
+    st.add(&format!("user_records_{}", name), 1);
+    let (ps, bs) = (arg_str(p), arg_str(b));
+    // the harness's own reading of the arguments
+    let syls = bs.map(read_bopomofo);
+    let key = syls.as_ref().map(|s| s.join(" "));
+    let entry = match (ps, &key) {
+        (Some(p), Some(k)) => Some((p.to_string(), k.clone())),
+        _ => None,
+    };
+    let lookup_now = |p: &Arg, b: &Arg| -> i32 {
+        let pc = p.as_ref().map(|x| std::ffi::CString::new(x.clone()).unwrap());
+        let bc = b.as_ref().map(|x| std::ffi::CString::new(x.clone()).unwrap());
+        unsafe { chewing_userphrase_lookup(ctx, pc.as_ref().map_or(std::ptr::null(), |c| c.as_ptr()), bc.as_ref().map_or(std::ptr::null(), |c| c.as_ptr())) }
+    };
+    let n_syl = syls.as_ref().map_or(0, |s| s.len());
+    match kind {
+        0 => {
+            // success exactly for: both strings valid, 1..=11 syllables read, one character per syllable
+            let acceptable = entry.is_some() && (1..=11).contains(&n_syl) && ps.map_or(0, |p| p.chars().count()) == n_syl;
+            if ps.is_some() && bs.is_some() && ps.map_or(0, |p| p.chars().count()) != n_syl {
+                st.add("user_add_calls_with_mismatched_lengths", 1);
+            }
+            if bs.is_some() && n_syl < bs.unwrap().split_ascii_whitespace().count() {
+                st.add("user_add_calls_with_an_unparsable_token", 1);
+            }
+            if entry.as_ref().is_some_and(|e| s0.contains(e)) {
+                st.add("user_add_calls_of_a_phrase_already_there", 1);
+            }
+            if rc == 1 {
+                st.add("user_add_success", 1);
+                let e = entry.clone().unwrap_or_default();
+                if !acceptable {
+                    v.push(format!("{} returned 1 (success) for arguments that cannot be honoured: {} syllables read, phrase {:?}", op.text(), n_syl, ps));
+                } else {
+                    let mut want = s0.clone();
+                    want.insert(e.clone());
+                    if s1 != want {
+                        v.push(format!("after {} returned 1 the enumeration is {:?}, expected the former entries plus {:?}", op.text(), s1, e));
+                    }
+                    if lookup_now(p, b) != 1 {
+                        v.push(format!("after {} returned 1, chewing_userphrase_lookup of the same arguments does not return 1", op.text()));
+                    }
+                }
+            } else {
+                st.add("user_add_refused", 1);
+                if acceptable {
+                    v.push(format!("{} returned {} for a well-formed request", op.text(), rc));
+                }
+                if s1 != s0 {
+                    v.push(format!("{} returned {} (refused) but the user dictionary changed: {:?} -> {:?}", op.text(), rc, s0, s1));
+                }
+                if !matches!(rc, 0 | -1) {
+                    v.push(format!("{} returned {}", op.text(), rc));
+                }
+            }
+        }
+        1 => {
+            let present = entry.as_ref().is_some_and(|e| s0.contains(e));
+            if rc == 1 {
+                st.add("user_remove_success", 1);
+                let e = entry.clone().unwrap_or_default();
+                let mut want = s0.clone();
+                want.remove(&e);
+                if !present {
+                    v.push(format!("{} returned 1 (removed) although the phrase was not in the user dictionary {:?}", op.text(), s0));
+                } else if s1 != want {
+                    v.push(format!("after {} returned 1 the enumeration is {:?}, expected {:?}", op.text(), s1, want));
+                } else if lookup_now(p, b) != 0 {
+                    v.push(format!("after {} returned 1, chewing_userphrase_lookup of the same arguments still returns 1", op.text()));
+                }
+            } else {
+                st.add("user_remove_refused", 1);
+                if present {
+                    v.push(format!("{} returned {} although the phrase is in the user dictionary", op.text(), rc));
+                }
+                if s1 != s0 {
+                    v.push(format!("{} returned {} (nothing removed) but the user dictionary changed: {:?} -> {:?}", op.text(), rc, s0, s1));
+                }
+            }
+        }
+        _ => {
+            let want = match (&key, ps) {
+                (None, _) => 0,
+                (Some(k), Some(p)) => s0.contains(&(p.to_string(), k.clone())) as i32,
+                // a NULL / non-UTF-8 phrase: "any phrase of these syllables"
+                (Some(k), None) => s0.iter().any(|(_, kk)| kk == k) as i32,
+            };
+            st.add(if rc == 1 { "user_lookup_found" } else { "user_lookup_not_found" }, 1);
+            if rc != want {
+                v.push(format!("{} returned {}, the user dictionary {:?} says {}", op.text(), rc, s0, want));
+            }
+            if s1 != s0 {
+                v.push(format!("{} is not pure: {:?} -> {:?}", op.text(), s0, s1));
+            }
+            if lookup_now(p, b) != rc {
+                v.push(format!("{} asked twice gives two answers", op.text()));
+            }
+        }
+    }
 }
 
 fn trace_seed(seed: u64, t: u64) -> u64 {
